@@ -594,7 +594,7 @@ func (env *specEnv) sel(n *ESel) Val {
 		}
 		ref := x.L[0]
 		cur := pt.Elem()
-		return env.withState(env.st, func() Val {
+		return env.closedAtEntry(env.withState(env.st, func() Val {
 			// path through embedded structs
 			for k, i := range path {
 				if k == len(path)-1 {
@@ -610,7 +610,7 @@ func (env *specEnv) sel(n *ESel) Val {
 				}
 			}
 			return Val{}
-		})
+		}))
 	}
 	if st, ok := t.Underlying().(*types.Struct); ok {
 		idx, path := findField(st, n.F)
@@ -1025,4 +1025,20 @@ func appendHeapArgs(s, heaps string) string {
 		}
 		s = s[:i] + s[i+1:j] + " " + heaps + s[j:]
 	}
+}
+
+// closedAtEntry: the heap a function starts in is closed — a reference stored in a field of an existing
+// object is nil or an object that already exists. Recorded (like range facts) for field reads that a
+// contract makes in the entry state; facts about terms with bound variables are dropped by the quantifier
+// code. This is what separates objects reachable from the parameters from objects allocated by the function.
+func (env *specEnv) closedAtEntry(v Val) Val {
+	e := env.e
+	if env.inSpec || env.st != e.st0 || v.T == nil || len(v.L) == 0 {
+		return v
+	}
+	switch typeUnder(v.T).(type) {
+	case *types.Pointer, *types.Slice, *types.Map:
+		e.rangeFacts = append(e.rangeFacts, sor(seq(v.L[0], "0"), "(select "+quoteSym("$alloc")+" "+v.L[0]+")"))
+	}
+	return v
 }
